@@ -341,6 +341,7 @@ func c02FieldPair(pub, sec, lay, dir int, swap bool, seen func(string)) string {
 }
 
 func checkC02(c *Ctx) {
+	npSection(c, "C02", 1)
 	u := universe()
 	sp := quickDirectives()
 	if !c.Quick() {
